@@ -111,25 +111,35 @@ func (v *vc) execCall(fr *frame, st *state, instr ssa.Instruction, c *ssa.CallCo
 		v.ghostUpdates(fr, st, "after "+site)
 		v.lastCall = nil
 	}()
+	_, isBuiltin := c.Value.(*ssa.Builtin)
+	args := make([]string, len(c.Args))
+	if !isBuiltin {
+		for i, a := range c.Args {
+			if _, isAddr := fr.addrs[a]; isAddr {
+				if _, has := fr.vals[a]; !has {
+					args[i] = "interior_ptr"
+					continue
+				}
+			}
+			args[i] = v.val(fr, st, a)
+		}
+	}
 	if fr.top && fr.fc != nil {
 		for _, cl := range fr.fc.callRequires[site] {
 			se := v.newSpecEnv(fr, st, instr.Block())
+			if !isBuiltin {
+				// callargK: the K-th operand of the call as go/ssa lists them (the receiver of a static
+				// method call is callarg0; an interface call's receiver is not among them)
+				for i, a := range c.Args {
+					se.names[fmt.Sprintf("callarg%d", i)] = tv{term: args[i], typ: a.Type()}
+				}
+			}
 			v.oblige(st, "typestate", cl.label, site, se.evalGoal(cl.expr), cl.props)
 		}
 	}
 	if b, ok := c.Value.(*ssa.Builtin); ok {
 		v.builtin(fr, st, instr, b, c, res)
 		return
-	}
-	args := make([]string, len(c.Args))
-	for i, a := range c.Args {
-		if _, isAddr := fr.addrs[a]; isAddr {
-			if _, has := fr.vals[a]; !has {
-				args[i] = "interior_ptr"
-				continue
-			}
-		}
-		args[i] = v.val(fr, st, a)
 	}
 	sig := c.Signature()
 	var callee *ssa.Function
@@ -400,7 +410,7 @@ func (v *vc) contractCall(fr *frame, st *state, instr ssa.Instruction, fc *funcC
 	se := v.calleeEnv(fr, st, fc, callee, c, args)
 	se.pre = pre
 	se.cur = pre
-	assumeReq := fr.top && fr.fc != nil && fr.fc.callAssumeReq[site]
+	assumeReq := fr.top && fr.fc != nil && fr.fc.callAssumeReq[site] || v.fc != nil && v.fc.assumeAllCalleeReq
 	for _, r := range fc.requires {
 		if v.fc != nil && v.fc.sweep {
 			break // the lock sweep claims nothing about the callee's functional preconditions
